@@ -26,6 +26,96 @@ func checkC03(c *Ctx, r *Report) {
 	c03e(c, r)
 	c03f(c, r)
 	c03g(c, r)
+	c03h(c, r)
+}
+
+// C03.h — the guard of each relation is exactly the conjunction its definition states: an extra conjunct drops pairs
+// for particular grammar shapes (under-approximation), which the dependence rule (a necessary condition on what the
+// guard reads) cannot see.
+func c03h(c *Ctx, r *Report) {
+	const clause = "C03.h"
+	type spec struct {
+		fn    string
+		descr string
+		want  [][]string // per expected atom: substrings its canonical form must contain (operand order is free)
+	}
+	specs := []spec{
+		{"CalcLookbacks", "lookback: symbol match ∧ path p --ω--> q", [][]string{
+			{"sym_or_rule", "LeftPart.ID", " == "},
+			{"walk(", ".RighPart)", ".q", " == "}}},
+		{"CaclIncludeRelation", "includes: symbol match ∧ nullable suffix ∧ path p' --β--> p ∧ transition (p', B) exists", [][]string{
+			{"Symbols[", "sym_or_rule]", "elem(", "RighPart)", " == "},
+			{"seqenceCanEpsilon(", "RighPart[(key(", " + 1):])"},
+			{"walk(", "RighPart[:key(", ".q"},
+			{"nil"}}},
+		{"calcReadsRelation", "reads: candidate leaves the successor state ∧ its symbol is a nullable nonterminal", [][]string{
+			{".q", ".to", " == "},
+			{"isNonAndEpsilonSymIndex(", "sym_or_rule)"}}},
+		{"fetchOneDr", "DR: A is a nonterminal ∧ candidate leaves the successor state ∧ its symbol is a terminal", [][]string{
+			{"IsNonTerminator"},
+			{".q", ".to", " == "},
+			{"isTermSymIndex(", "sym_or_rule)"}}},
+	}
+	for _, sp := range specs {
+		f := c.need(r, clause, "LALR", "LALR1", sp.fn)
+		if f == nil {
+			continue
+		}
+		info := f.Pkg.TypesInfo
+		var target ast.Node
+		if apps := findRelationAppends(f); len(apps) == 1 {
+			target = apps[0]
+		} else {
+			ast.Inspect(f.Decl.Body, func(n ast.Node) bool {
+				if call, ok := n.(*ast.CallExpr); ok && builtinName(info, call) == "append" {
+					target = call
+				}
+				return true
+			})
+		}
+		if target == nil {
+			r.Undecided(clause, "R4 EXACT-GUARD", f.Name, c.pos(f.Decl.Pos()), "no guarded append")
+			continue
+		}
+		atoms := guardAtoms(c, f, target)
+		used := make([]bool, len(atoms))
+		var missing []string
+		for _, w := range sp.want {
+			hit := false
+			for i, a := range atoms {
+				if used[i] {
+					continue
+				}
+				all := true
+				for _, sub := range w {
+					if !strings.Contains(a, sub) {
+						all = false
+					}
+				}
+				if all {
+					used[i], hit = true, true
+					break
+				}
+			}
+			if !hit {
+				missing = append(missing, strings.Join(w, "…"))
+			}
+		}
+		var extra []string
+		for i, a := range atoms {
+			if !used[i] {
+				extra = append(extra, a)
+			}
+		}
+		bad := ""
+		if len(extra) > 0 {
+			bad = fmt.Sprintf("the guard has the additional condition(s) %v beyond the definition (%s): pairs of the relation are dropped for the grammar shapes where they are false, so some lookahead is lost", extra, sp.descr)
+		} else if len(missing) > 0 {
+			bad = fmt.Sprintf("the guard %v lacks a conjunct of the definition (%s)", atoms, sp.descr)
+		}
+		r.Check(bad == "", clause, "R4 EXACT-GUARD", f.Name+"/guard-is-the-definition", c.pos(target.Pos()),
+			fmt.Sprintf("%s — the append is guarded by exactly these %d conditions", sp.descr, len(atoms)), bad)
+	}
 }
 
 // C03.g — the three Digraph stages are chained: Read = DR closed under reads, Follow = Read closed under includes,
@@ -263,7 +353,7 @@ func c03ab(c *Ctx, r *Report) {
 			if err != nil {
 				return true
 			}
-			// exactly: [!elem.IsEpsilonClosure] → result false (+break); otherwise nothing
+			// exactly: [!elem.IsEpsilonClosure] → the result becomes false (assigned, or returned at once); otherwise nothing
 			good := true
 			for _, p := range paths {
 				neg := false
@@ -278,11 +368,33 @@ func c03ab(c *Ctx, r *Report) {
 						setsFalse = true
 					}
 				}
+				if p.Kind == "return" && len(p.Vals) == 1 && p.Vals[0].Op == "const" && p.Vals[0].Val.Kind() == constant.Bool && !constant.BoolVal(p.Vals[0].Val) {
+					setsFalse = true
+				}
 				if neg != setsFalse {
 					good = false
 				}
 			}
-			ok = good && len(paths) == 2
+			// the value for "no symbol failed" is true: `ret := true … return ret` or a final `return true`
+			startsTrue := false
+			ast.Inspect(f.Decl.Body, func(m ast.Node) bool {
+				switch y := m.(type) {
+				case *ast.AssignStmt:
+					if len(y.Rhs) == 1 && y.Tok.String() == ":=" {
+						if cv := constOf(info, y.Rhs[0]); cv != nil && cv.Kind() == constant.Bool && constant.BoolVal(cv) {
+							startsTrue = true
+						}
+					}
+				case *ast.ReturnStmt:
+					if len(y.Results) == 1 && y.Pos() > rs.End() {
+						if cv := constOf(info, y.Results[0]); cv != nil && cv.Kind() == constant.Bool && constant.BoolVal(cv) {
+							startsTrue = true
+						}
+					}
+				}
+				return true
+			})
+			ok = good && len(paths) == 2 && startsTrue
 			return true
 		})
 		// initial value true and returned
@@ -416,87 +528,7 @@ func c03c(c *Ctx, r *Report) {
 		}
 		r.Check(bad == "" && n >= 8, clause, "R4 DECISION-TABLE", f.Name, c.pos(f.Decl.Pos()), "all 8 classes (rule bit × nonterminal × nullable) give the defined result", bad)
 	}
-	// end-marker seeding
-	if f := c.need(r, clause, "LALR", "LALR1", "CalcDR"); f != nil {
-		info := f.Pkg.TypesInfo
-		ok := false
-		ast.Inspect(f.Decl.Body, func(n ast.Node) bool {
-			as, isA := n.(*ast.AssignStmt)
-			if !isA || len(as.Lhs) != 1 {
-				return true
-			}
-			ix, isI := as.Lhs[0].(*ast.IndexExpr)
-			if !isI {
-				return true
-			}
-			if fv := fieldVar(info, ix.X); fv == nil || fv.Name() != "DRSet" {
-				return true
-			}
-			if v, isC := constInt(info, ix.Index); !isC || v != 0 {
-				return true
-			}
-			call, isC := as.Rhs[0].(*ast.CallExpr)
-			if !isC || builtinName(info, call) != "append" {
-				return true
-			}
-			ast.Inspect(call, func(m ast.Node) bool {
-				if bl, isB := m.(*ast.BasicLit); isB && bl.Value == "1" {
-					ok = true
-				}
-				return true
-			})
-			return true
-		})
-		r.Check(ok, clause, "R1 PROVENANCE", f.Name+"/end-marker-seed", c.pos(f.Decl.Pos()),
-			"the end marker (symbol id 1) is added to DR of transition 0, the (state 0, start symbol) transition",
-			"the end marker is not seeded into DR of transition 0: end of input would never be a lookahead")
-	}
-	if f := c.need(r, clause, "LALR", "LALR1", "CalcLookAheadSet"); f != nil {
-		info := f.Pkg.TypesInfo
-		ok := false
-		ast.Inspect(f.Decl.Body, func(n ast.Node) bool {
-			is, isI := n.(*ast.IfStmt)
-			if !isI {
-				return true
-			}
-			be, isB := unparen(is.Cond).(*ast.BinaryExpr)
-			if !isB || be.Op != token.EQL {
-				return true
-			}
-			if v, isC := constInt(info, be.Y); !isC || v != 0 || !strings.Contains(exprString(be.X), "sym_or_rule") {
-				return true
-			}
-			for _, s := range is.Body.List {
-				if as, isA := s.(*ast.AssignStmt); isA && len(as.Rhs) == 1 {
-					if cl, isCl := as.Rhs[0].(*ast.CompositeLit); isCl && len(cl.Elts) == 1 {
-						if v, isC := constInt(info, cl.Elts[0]); isC && v == 1 {
-							ok = true
-						}
-					}
-				}
-			}
-			return true
-		})
-		r.Check(ok, clause, "R1 PROVENANCE", f.Name+"/rule-0-lookahead", c.pos(f.Decl.Pos()),
-			"the reduction by rule 0 (start → S) has exactly the end marker as lookahead",
-			"the reduction by rule 0 is not given the end marker as its lookahead")
-	}
-	// dollar has id 1
-	if f := c.need(r, clause, "Parser", "Walker", "BuildLALR1"); f != nil {
-		info := f.Pkg.TypesInfo
-		ok := false
-		ast.Inspect(f.Decl.Body, func(n ast.Node) bool {
-			if call, isC := n.(*ast.CallExpr); isC && strings.HasSuffix(shortFuncName(callee(info, call)), "Symbol.NewSymbol") && len(call.Args) == 2 {
-				if v, isI := constInt(info, call.Args[0]); isI && v == 1 {
-					if s, isS := constString(info, call.Args[1]); isS && s == "$" {
-						ok = true
-					}
-				}
-			}
-			return true
-		})
-		r.Check(ok, clause, "R1 PROVENANCE", f.Name+"/end-marker-id", c.pos(f.Decl.Pos()), "the end marker `$` is created with symbol id 1, the id seeded by CalcDR", "the end marker `$` is not created with symbol id 1")
-	}
+	c03EndMarker(c, r, clause)
 	// BuildTrans ordering premises
 	if f := c.need(r, clause, "LALR", "LALR1", "BuildTrans"); f != nil {
 		c03BuildTrans(c, r, f)
@@ -1115,38 +1147,58 @@ func checkFixpoint(c *Ctx, fn *FuncRef, spec fixpointSpec) string {
 	if len(fieldsRead) != len(spec.predAll) {
 		return fmt.Sprintf("the per-symbol predicate reads %v, expected exactly %v", keysOf(fieldsRead), spec.predAll)
 	}
-	// marking
-	if markIf == nil || identObj(info, unparen(markIf.Cond)) != acc {
+	// marking: `LeftPart.mark = true` guarded (through any nesting of ifs / a conjunction) by the accumulator and by
+	// `!LeftPart.mark`, with the change counter incremented in the same block
+	if markIf == nil {
 		return "the mark is not guarded by the accumulator"
 	}
-	marked, counted, guarded := false, false, false
-	ast.Inspect(markIf.Body, func(n ast.Node) bool {
-		switch x := n.(type) {
-		case *ast.IfStmt:
-			if un, ok := unparen(x.Cond).(*ast.UnaryExpr); ok && un.Op == token.NOT {
-				if fv := fieldVar(info, unparen(un.X)); fv != nil && fv.Name() == spec.mark {
-					guarded = true
-				}
-			}
-		case *ast.AssignStmt:
+	pm := parentMap(rules.Body)
+	var markStmt *ast.AssignStmt
+	ast.Inspect(markIf, func(n ast.Node) bool {
+		if x, ok := n.(*ast.AssignStmt); ok {
 			for i, l := range x.Lhs {
 				if fv := fieldVar(info, l); fv != nil && fv.Name() == spec.mark && strings.Contains(exprString(l), "LeftPart") {
 					if cv := constOf(info, x.Rhs[i]); cv != nil && cv.Kind() == constant.Bool && constant.BoolVal(cv) {
-						marked = true
+						markStmt = x
 					}
 				}
-			}
-		case *ast.IncDecStmt:
-			if identObj(info, x.X) == change && x.Tok == token.INC {
-				counted = true
 			}
 		}
 		return true
 	})
-	if !marked {
+	if markStmt == nil {
 		return "the left-hand side's " + spec.mark + " is not set to true"
 	}
-	if !guarded || !counted {
+	byAcc, byUnmarked := false, false
+	var cur ast.Node = markStmt
+	for cur != nil && cur != ast.Node(rules.Body) {
+		par := pm[cur]
+		if is, ok := par.(*ast.IfStmt); ok && cur == ast.Node(is.Body) {
+			for _, e := range flattenAnd(is.Cond) {
+				if identObj(info, e) == acc {
+					byAcc = true
+				}
+				if un, ok := unparen(e).(*ast.UnaryExpr); ok && un.Op == token.NOT {
+					if fv := fieldVar(info, unparen(un.X)); fv != nil && fv.Name() == spec.mark && strings.Contains(exprString(un.X), "LeftPart") {
+						byUnmarked = true
+					}
+				}
+			}
+		}
+		cur = par
+	}
+	counted := false
+	if blk, ok := pm[markStmt].(*ast.BlockStmt); ok {
+		for _, s := range blk.List {
+			if id, ok := s.(*ast.IncDecStmt); ok && identObj(info, id.X) == change && id.Tok == token.INC {
+				counted = true
+			}
+		}
+	}
+	if !byAcc {
+		return "the mark is not guarded by the accumulator"
+	}
+	if !byUnmarked || !counted {
 		return "a new mark does not increment the change counter exactly when the symbol was not marked before (the loop could stop early or never)"
 	}
 	return ""
@@ -1295,4 +1347,90 @@ func c03f(c *Ctx, r *Report) {
 	}
 	r.Check(bad == "", clause, "R4 DECISION-TABLE", f.Name+"/warning-iff-unresolved", c.pos(fold.Pos()),
 		"inside `len(actions) > 1`: the `warning:` line and the default resolution happen exactly when ResolveConflict reports it cannot decide (a precedence is missing, C04.a)", bad)
+}
+
+// c03EndMarker: the end marker is seeded into DR of transition 0, rule 0 reduces (= accepts) on the end marker
+// only, and the end marker is symbol 1. Shared with C01.a: an accept cell on any other lookahead is unsound.
+func c03EndMarker(c *Ctx, r *Report, clause string) {
+	// end-marker seeding
+	if f := c.need(r, clause, "LALR", "LALR1", "CalcDR"); f != nil {
+		info := f.Pkg.TypesInfo
+		ok := false
+		ast.Inspect(f.Decl.Body, func(n ast.Node) bool {
+			as, isA := n.(*ast.AssignStmt)
+			if !isA || len(as.Lhs) != 1 {
+				return true
+			}
+			ix, isI := as.Lhs[0].(*ast.IndexExpr)
+			if !isI {
+				return true
+			}
+			if fv := fieldVar(info, ix.X); fv == nil || fv.Name() != "DRSet" {
+				return true
+			}
+			if v, isC := constInt(info, ix.Index); !isC || v != 0 {
+				return true
+			}
+			call, isC := as.Rhs[0].(*ast.CallExpr)
+			if !isC || builtinName(info, call) != "append" {
+				return true
+			}
+			ast.Inspect(call, func(m ast.Node) bool {
+				if bl, isB := m.(*ast.BasicLit); isB && bl.Value == "1" {
+					ok = true
+				}
+				return true
+			})
+			return true
+		})
+		r.Check(ok, clause, "R1 PROVENANCE", f.Name+"/end-marker-seed", c.pos(f.Decl.Pos()),
+			"the end marker (symbol id 1) is added to DR of transition 0, the (state 0, start symbol) transition",
+			"the end marker is not seeded into DR of transition 0: end of input would never be a lookahead")
+	}
+	if f := c.need(r, clause, "LALR", "LALR1", "CalcLookAheadSet"); f != nil {
+		info := f.Pkg.TypesInfo
+		ok := false
+		ast.Inspect(f.Decl.Body, func(n ast.Node) bool {
+			is, isI := n.(*ast.IfStmt)
+			if !isI {
+				return true
+			}
+			be, isB := unparen(is.Cond).(*ast.BinaryExpr)
+			if !isB || be.Op != token.EQL {
+				return true
+			}
+			if v, isC := constInt(info, be.Y); !isC || v != 0 || !strings.Contains(exprString(be.X), "sym_or_rule") {
+				return true
+			}
+			for _, s := range is.Body.List {
+				if as, isA := s.(*ast.AssignStmt); isA && len(as.Rhs) == 1 {
+					if cl, isCl := as.Rhs[0].(*ast.CompositeLit); isCl && len(cl.Elts) == 1 {
+						if v, isC := constInt(info, cl.Elts[0]); isC && v == 1 {
+							ok = true
+						}
+					}
+				}
+			}
+			return true
+		})
+		r.Check(ok, clause, "R1 PROVENANCE", f.Name+"/rule-0-lookahead", c.pos(f.Decl.Pos()),
+			"the reduction by rule 0 (start → S) has exactly the end marker as lookahead",
+			"the reduction by rule 0 is not given the end marker as its lookahead")
+	}
+	// dollar has id 1
+	if f := c.need(r, clause, "Parser", "Walker", "BuildLALR1"); f != nil {
+		info := f.Pkg.TypesInfo
+		ok := false
+		ast.Inspect(f.Decl.Body, func(n ast.Node) bool {
+			if call, isC := n.(*ast.CallExpr); isC && strings.HasSuffix(shortFuncName(callee(info, call)), "Symbol.NewSymbol") && len(call.Args) == 2 {
+				if v, isI := constInt(info, call.Args[0]); isI && v == 1 {
+					if s, isS := constString(info, call.Args[1]); isS && s == "$" {
+						ok = true
+					}
+				}
+			}
+			return true
+		})
+		r.Check(ok, clause, "R1 PROVENANCE", f.Name+"/end-marker-id", c.pos(f.Decl.Pos()), "the end marker `$` is created with symbol id 1, the id seeded by CalcDR", "the end marker `$` is not created with symbol id 1")
+	}
 }
